@@ -869,6 +869,26 @@ func (i *interpreter) reflectExternals() map[string]externalFn {
 			return fieldByIndex(r, st, k)
 		},
 		"(reflect.Value).FieldByName":  func(fr *frame, a []value) value { return rFieldByName(rv(a[0]), a[1].(string)) },
+		"(reflect.Value).FieldByIndex": func(fr *frame, a []value) value {
+			cur := rv(a[0])
+			for k, x := range a[1].([]value) {
+				if k > 0 && kindOfR(cur) == reflect.Ptr {
+					p := cur.get().(*value)
+					if p == nil {
+						panic(reflectPanic("reflect: indirection through nil pointer to embedded struct"))
+					}
+					cur = rvalue{t: cur.t.Underlying().(*types.Pointer).Elem(), addr: p, ro: cur.ro}
+				}
+				mustBe(cur, "reflect.Value.FieldByIndex", reflect.Struct)
+				st := cur.t.Underlying().(*types.Struct)
+				idx := int(asInt64(x))
+				if idx < 0 || idx >= st.NumFields() {
+					panic(reflectPanic("reflect: Field index out of range"))
+				}
+				cur = fieldByIndex(cur, st, idx)
+			}
+			return cur
+		},
 		"(reflect.Value).MethodByName": func(fr *frame, a []value) value { return fr.i.rMethodByName(rv(a[0]), a[1].(string)) },
 		"(reflect.Value).Call": func(fr *frame, a []value) value {
 			var args []rvalue
@@ -1044,6 +1064,39 @@ func (m *rtypeMethod) call(i *interpreter, args []value) value {
 			return u.NumFields()
 		}
 		panic(bad())
+	case "FieldByName", "Field":
+		u, ok := t.Underlying().(*types.Struct)
+		if !ok {
+			panic(bad())
+		}
+		mk := func(f *types.Var, index []int) value {
+			var idx []value
+			for _, k := range index {
+				idx = append(idx, k)
+			}
+			pkgPath := ""
+			if !f.Exported() && f.Pkg() != nil {
+				pkgPath = f.Pkg().Path()
+			}
+			// reflect.StructField{Name, PkgPath, Type, Tag, Offset, Index, Anonymous}
+			return structure{f.Name(), pkgPath, i.reflectTypeIface(f.Type()), "", uintptr(0), idx, f.Embedded()}
+		}
+		if m.name == "Field" {
+			k := int(asInt64(args[0]))
+			if k < 0 || k >= u.NumFields() {
+				panic(reflectPanic("reflect: Field index out of bounds"))
+			}
+			return mk(u.Field(k), []int{k})
+		}
+		var pkg *types.Package
+		if n, ok := t.(*types.Named); ok {
+			pkg = n.Obj().Pkg()
+		}
+		obj, index, _ := types.LookupFieldOrMethod(t, false, pkg, args[0].(string))
+		if fv, ok := obj.(*types.Var); ok && fv.IsField() {
+			return tuple{mk(fv, index), true}
+		}
+		return tuple{structure{"", "", iface{}, "", uintptr(0), []value(nil), false}, false}
 	case "Len":
 		if u, ok := t.Underlying().(*types.Array); ok {
 			return int(u.Len())
